@@ -16,13 +16,13 @@ COMMON_NOTE = ("Trusted base: Lean 4.33.0 kernel (+ leanchecker in the thorough 
 META = {
  "C01": dict(ref="6.1", technique="Lean 4 proof (route-independent dispatcher theorem, proved sieve/window oracles) + correspondence",
    text="Theorems: the size dispatcher returns pi(x) whenever each route does (Legendre/Meissel/Gourdon identities are proved in PcProofs/Spec for all x and parameters); decimal rendering round-trips; the oracles used as judge (trial division, sieve, window count) are proved equal to Nat.primeCounting. The tie to the code is the correspondence stream over all entry points.",
-   note="Routes' refinement (C++ loops -> defining sums) is tied by correspondence, not proved; pi_cache_ table tied by generated obligations (C17)."),
+   note="Proved: control flow of pi_legendre / pi_meissel / pi_lehmer / pi_lmo1..4 = pi(x) (C02Algs), every Gourdon / DR term's loop = its definition (C08*), dispatcher route-independent. Still tied by correspondence only: the composition inside pi_gourdon / pi_deleglise_rivat / pi_lmo5 / pi_lmo_parallel, AC's C1 and level pruning, table constructors vs their proved models; pi_cache_ table tied by generated obligations (C17). Source-mirror obligations (PcProps/C01Src) pin the text of the modelled functions."),
  "C02": dict(ref="6.2", technique="Lean 4 proof (Legendre, Meissel, Lehmer, LMO, Deleglise-Rivat and Gourdon identities for all x) + correspondence",
-   text="Every algorithm evaluates an identity that is proved in Lean for all x and all admissible parameters (legendre, meissel, lehmer, pi_lmo, pi_dr, GParams.pi_gourdon; any two leaf decompositions agree); each implementation is tied to the terms of its identity by exhaustive small ranges and structured samples against the proved sieve oracle.",
-   note="The C++ evaluation of each term (segmented sieve, clustered leaves) is modelled by its defining sum and tied by correspondence."),
+   text="Every algorithm evaluates an identity that is proved in Lean for all x and all admissible parameters (legendre, meissel, lehmer, pi_lmo, pi_dr, GParams.pi_gourdon); the REAL control flow of pi_legendre, pi_meissel, pi_lehmer, P3, pi_lmo1..4 (incl. the segmented sieve engine for every segment size and the Fenwick tree) is modelled and proved = pi(x) for all x; each remaining implementation is tied to the terms of its identity by exhaustive small ranges and structured samples against the proved sieve oracle.",
+   note="pi_lmo5 / pi_lmo_parallel / pi_deleglise_rivat / pi_gourdon: each TERM's loop is proved (C08), their composition is tied by correspondence. int64 overflow freedom of accumulators not proved (C16)."),
  "C03": dict(ref="6.3", technique="Lean 4 proof (dispenser totality over all event lists, reductions under permutation) + trace acceptance",
    text="For every event list (any worker count, order, clock trace) accepted by the L2 step relation the chunks partition the range and the accumulated sum is the sum of an additive per-chunk function; reductions are permutation invariant; an atomic counter hands out each index once. Real balancer objects are driven by simulated workers and every recorded history must be accepted.",
-   note="Mutual exclusion of omp locks, OpenMP reductions/barriers and std::atomic are trusted runtime semantics; chunk additivity of D/S2_hard/AC is tied by correspondence."),
+   note="Proved for every accepted history / schedule: P2, B (C03P2), S1, Phi0 (C03Leaf), S2_hard, D regions (C03Hard: any LoadBalancerS2 history gives Spec.S2_hard / Spec.D), S2_easy (any distribution of the atomic counter). Mutual exclusion of omp locks, OpenMP reductions/barriers and std::atomic are trusted runtime semantics; AC's segment additivity is proved per kernel (A, C2), C1 by correspondence."),
  "C04": dict(ref="6.4", technique="Lean 4 proof (clamps for every float outcome, parameter-independent identities) + correspondence",
    text="The clamps yield x^(1/3) < y <= z < x^(1/2) for EVERY value of the two float products (x >= 64); the leaf decomposition and the Gourdon/DR identities are proved for every admissible (y, z, k), so a returned count cannot depend on alpha. Counts under alpha grids are compared with the oracle and the derived parameters with the Lean clamps fed with the implementation's alpha bit patterns.",
    note="alpha (libm log) enters as a bit pattern; float envelopes for casts are assumptions."),
@@ -36,8 +36,8 @@ META = {
    text="phi's guards, the PhiTiny formula (periodicity) and the recursive algorithm with an arbitrary spec-consistent cache are proved equal to the Legendre sum; tables are generated from the binary and kernel-checked.",
    note="pix_upper bound is a named hypothesis."),
  "C08": dict(ref="6.8", technique="Lean 4 proof (lmo_general, dr_split, gourdon_decomp for all parameters) + correspondence against defining sums",
-   text="S1 + S2 = phi(x, pi(y)) and A - B + C + D + Phi0 + Sigma = pi(x) are proved for all x and every admissible (y, z, k|c) (PcProofs/Spec); each term of the code is compared with an executable evaluation of its defining sum on explicit parameters, exhaustive for small x.",
-   note="Executable defining sums (PcModel/Formulas) vs noncomputable Spec definitions: proved equal where PcProofs/Formulas says so, else by inspection; C++ term implementations tied by correspondence."),
+   text="S1 + S2 = phi(x, pi(y)) and A - B + C + D + Phi0 + Sigma = pi(x) are proved for all x and every admissible (y, z, k|c) (PcProofs/Spec). The REAL control flow of P2, B, P3, S1, Phi0, Sigma, S2_trivial, S2_easy (both division variants), S2_hard and D (thread functions for every work item, chunk chains, OpenMP regions for every balancer history) is modelled and proved equal to the Spec definitions; A and C2 kernels of AC are proved per (segment, b). Every term of the code is also compared with an executable evaluation of its defining sum on exhaustive small scopes and boundary-heavy samples.",
+   note="AC: C1 recursion, the C2/C1 -> Spec.C bridge and the per-segment level pruning are tied by correspondence (whole AC_OpenMP not yet proved). Table parameters (primes, PiTable, FactorTable, Sieve contract) are hypotheses discharged by C17's constructor models + streams; accumulators are exact integers (overflow: C16). Source-mirror obligations (C08Src, C08SrcLoops, C08P2) pin the text of every modelled function, incl. the AVX512/SVE twin files."),
  "C09": dict(ref="6.9", technique="Lean 4 proof (invariants of the three dispenser state machines over all histories) + trace acceptance",
    text="partition / alignment / progress / stop / sum-once proved for every history accepted by the L2 relations (float decisions are nondeterministic choices); real objects driven with simulated workers and virtual clock must only produce accepted histories.",
    note="overflow freedom up to 2^62 only under an explicit bound hypothesis."),
@@ -49,10 +49,10 @@ META = {
    note="branches needing quotients >= 2^64 are not executable here."),
  "C12": dict(ref="6.12", technique="Lean 4 proof (roots exact for every estimate; clamps) + correspondence",
    text="isqrt/iroot/ct_sqrt proved exact floors for EVERY floating point estimate and every width, with no intermediate leaving its type; parameter clamps proved for all float outcomes; real header functions compared at k^n-1,k^n,k^n+1, rounding cliffs and random points.",
-   note="float envelopes for (int64_t)(x13*alpha) are assumptions; maxx_default above 2^93 is validated, not proved."),
+   note="float envelopes for (int64_t)(x13*alpha) are named hypotheses evaluated on every sample; maxx_default above 2^93 is validated, not proved (maxx_default_partial). The tuning setters are defined for every double (set_alpha_total; finding F6 repaired)."),
  "C13": dict(ref="6.13", technique="Lean 4 proof (checked evaluator sound w.r.t. exact AST evaluation) + grammar-based correspondence",
-   text="toMaxint s = ok v implies the AST of s evaluates exactly to v with every intermediate in range; digit pre-check, division by zero and trailing garbage proved rejected.",
-   note="AST = documented grammar is validated by a reference parser, not proved; isspace/locale trusted."),
+   text="toMaxint s = ok v implies the AST of s evaluates exactly to v with every intermediate in range; digit pre-check, division by zero and trailing garbage proved rejected; the 64-bit command-line options hand over exactly the value of the expression or reject it (cli64_exact, cli64_rejects_outside).",
+   note="AST = documented grammar is validated by a reference parser, not proved; isspace/locale trusted. Findings F2, F7 (exception type of pi(string)), F8 (CLI int64 narrowing) repaired in /repo."),
  "C14": dict(ref="6.14", technique="Lean 4 proof (buffer contract of primecount_pi_str, wrapper equations) + generated try/catch obligation + ASan canary correspondence",
    text="cPiStr_bounds/error/len/terminated and cWrap_eq are proved for all (x?, res?, len); the translator regenerates the list of extern C functions and the kernel checks that each body is try/catch(std::exception) and that every thrown type derives from it.",
    note="len <= 2^31; non-std exceptions absent by generated obligation; stack exhaustion outside."),
@@ -61,10 +61,10 @@ META = {
    note="ARM SVE not buildable here; compiler trusted."),
  "C16": dict(ref="6.16", technique="Lean 4 proof (safety half of the L2 models) + sanitizer correspondence — partial",
    text="partial: for the modelled functions no intermediate leaves its type / index range (safety theorems); the union of the op streams runs on an ASan+UBSan+assert build.",
-   note="unmodelled code is covered by the sanitizer run only (validation)."),
+   note="unmodelled code is covered by the sanitizer run only (validation); accumulator additions of the loop models are exact integers (overflow freedom not yet proved); san build includes -fsanitize=float-cast-overflow (finding F6: truncate3)."),
  "C17": dict(ref="6.17", technique="Lean 4 proof (table obligations by decide, lookup and sieve invariants) + bit-exact correspondence",
    text="tables dumped from the built library are kernel-checked against their defining formulas; lookup/count theorems lift them to pi(n) and exact unsieved counts; real objects are compared bit for bit with the L2 model.",
-   note="prime generator = abstract prime sequence (C18)."),
+   note="prime generator = abstract prime sequence (C18). Large multi-threaded tables are compared by hash with the mirror model and a differing entry is judged against the documented encoding."),
  "C18": dict(ref="6.18", technique="Lean 4 proof (iterator window logic) + correspondence against proved oracle — partial",
    text="partial: window contiguity of the iterator is proved for any stop hint; the sieving core is tied only by correspondence against the proved window oracle.",
    note="Erat*/PreSieve/PrimeGenerator not modelled."),
